@@ -64,6 +64,9 @@ func ValidateCompiledWithConfiguration(compiledRegoPtr *rego.PreparedEvalQuery, 
 
 func executeValidation(eventChan *chan e.Event, err error, compiledRego rego.PreparedEvalQuery, normalizedInput any) (*rego.ResultSet, error) {
 	dispatchEvent(e.NewEvent(e.OpaValidationStart), eventChan)
+	if err := verifFault("evaluate"); err != nil {
+		return nil, err
+	}
 	validationResult, err := compiledRego.Eval(context.Background(), rego.EvalInput(normalizedInput))
 	dispatchEvent(e.NewEvent(e.OpaValidationDone), eventChan)
 	return &validationResult, err
